@@ -360,11 +360,37 @@ pub fn run(a: &Args, rep: &mut Report) {
         };
     }
     for_each_subject!(m);
+    // the iterator adapters (definite with an exact size hint, indefinite + break otherwise)
+    // and token slices: composite encoders with their own control flow around the item writes
+    for i in 0..n {
+        if !a.mine(i) {
+            continue;
+        }
+        let mut rng = Rng::derive("c13/iter", a.seed, 0, i);
+        let v: Vec<u32> = (0..rng.below(6)).map(|_| vcore::gen::gen_int(&mut rng, 32, false) as u32).collect();
+        let rp = vec!["c13".into(), "--seed".into(), a.seed.to_string(), "--replay".into(), "iter".into(), i.to_string()];
+        let show = format!("{:?}", v);
+        check_value("ArrayIter(exact)", &minicbor::encode::ArrayIter::new(v.iter()), &show, rep, &mut rng, &rp);
+        check_value("ArrayIter(inexact)", &minicbor::encode::ArrayIter::new(v.iter().filter(|_| true)), &show, rep, &mut rng, &rp);
+        check_value("MapIter(exact)", &minicbor::encode::MapIter::new(v.iter().map(|x| (*x, x % 3 == 0))), &show, rep, &mut rng, &rp);
+        check_value("MapIter(inexact)", &minicbor::encode::MapIter::new(v.iter().filter(|_| true).map(|x| (*x, x % 3 == 0))), &show, rep, &mut rng, &rp);
+    }
     raw_sequences(a, rep);
     rep.sample(J::obj().with("value", J::s("(u16, String) = (1000, \"hé\")")).with("capacities", J::s("0..=len+1")).with("sinks", J::s("&mut [u8], Cursor<&mut [u8]>, Cursor<Box<[u8]>>, Writer<io::Cursor<&mut [u8]>>, Cursor<[u8; N]> for 10 N, &mut Vec, Writer<Vec>")));
 }
 
 pub fn replay(a: &Args, rep: &mut Report) {
+    if a.replay[0] == "iter" {
+        let i: u64 = a.replay[1].parse().unwrap();
+        let mut rng = Rng::derive("c13/iter", a.seed, 0, i);
+        let v: Vec<u32> = (0..rng.below(6)).map(|_| vcore::gen::gen_int(&mut rng, 32, false) as u32).collect();
+        let show = format!("{:?}", v);
+        check_value("ArrayIter(exact)", &minicbor::encode::ArrayIter::new(v.iter()), &show, rep, &mut rng, &[]);
+        check_value("ArrayIter(inexact)", &minicbor::encode::ArrayIter::new(v.iter().filter(|_| true)), &show, rep, &mut rng, &[]);
+        check_value("MapIter(exact)", &minicbor::encode::MapIter::new(v.iter().map(|x| (*x, x % 3 == 0))), &show, rep, &mut rng, &[]);
+        check_value("MapIter(inexact)", &minicbor::encode::MapIter::new(v.iter().filter(|_| true).map(|x| (*x, x % 3 == 0))), &show, rep, &mut rng, &[]);
+        return;
+    }
     match a.replay[0].as_str() {
         "value" => {
             let want = a.replay[1].as_str();
